@@ -227,32 +227,46 @@ def _middleware(ctx: Ctx, model: ExcModel) -> None:
     ctx.check(len(rets) == 1 and rets[0].value is not None and txt(rets[0].value) == f"self.{F_KIND}", "RF-TABLE", "transport_kind-property-is-binding-field", prop, rets[0] if rets else None,
               ok="RpcServer.transport_kind returns the bound kind", bad="RpcServer.transport_kind does not return the binding field: guards reading it are not comparable with the idempotence test")
 
-    # --- the fast-path guard, evaluated for every previously bound kind
-    guards = [g for g in enclosing(cfg, nc, (ast.If, ast.While, ast.IfExp, ast.Try, ast.For, ast.Match))]
-    if any(not isinstance(g, ast.If) for g in guards):
+    # --- every test that can make process_request finish without the notification, evaluated for every previously
+    # bound kind and for both values of any flag the middleware keeps itself (a private "already bound" latch does not
+    # see a rebinding made through serve() on another transport)
+    import itertools
+
+    encl = [g for g in enclosing(cfg, nc, (ast.If, ast.While, ast.IfExp, ast.Try, ast.For, ast.Match))]
+    if any(not isinstance(g, ast.If) for g in encl):
         raise AnalysisError("C42: the HTTP notification sits in an unsupported construct (only plain `if` guards are interpreted)")
-    if not guards:
+    all_ifs = [n for n in walk_scope(pr.node) if isinstance(n, ast.If)]
+    if any(isinstance(n, (ast.While, ast.For, ast.Try, ast.Match)) for n in walk_scope(pr.node)):
+        raise AnalysisError("C42: process_request of the notify middleware contains loops / try (only plain `if` guards are interpreted)")
+    if not all_ifs:
         ctx.hold("RF-TABLE", "http:fast-path-guard-implied-by-idempotence-test", pr, nc, "no fast-path guard: _notify_transport is called on every request and decides under its lock")
     else:
-        kind_reads = [a for g in guards for a in ast.walk(g.test) if isinstance(a, ast.Attribute) and a.attr in ("transport_kind", F_KIND)]  # type: ignore[attr-defined]
-        if not kind_reads:
-            raise AnalysisError("C42: the middleware guard does not read the bound kind (unsupported idiom)")
+        kind_reads = [a for g in all_ifs for a in ast.walk(g.test) if isinstance(a, ast.Attribute) and a.attr in ("transport_kind", F_KIND)]
+        kind_txt = {txt(a) for a in kind_reads}
+        own_flags = sorted({txt(a) for g in all_ifs for a in ast.walk(g.test) if isinstance(a, ast.Attribute) and isinstance(a.value, ast.Name) and a.value.id == "self" and txt(a) not in kind_txt
+                            and not any(txt(a) != k and k.startswith(txt(a) + ".") for k in kind_txt)})
+        if len(own_flags) > 4:
+            raise AnalysisError("C42: too many middleware-local flags in the guards")
         missed: list[str] = []
+        nc_done = cfg.done(nc)
         for bound in [None, *[m for m in members if m != "HTTP"]]:
-            e: dict[str, object] = {txt(a): bound for a in kind_reads}
-            for m in members:
-                for pfx in ("TransportKind.", "_common.TransportKind.", "rpc.TransportKind."):
-                    e[pfx + m] = m
-            undec = [g for g in guards if eval_test(g.test, e) is None]  # type: ignore[attr-defined]
-            if undec:
-                raise AnalysisError(f"C42: cannot evaluate the middleware guard `{txt(undec[0].test)}`")  # type: ignore[attr-defined]
-            av = edges_under(cfg, pr.node, e, only=guards)
-            if not (cfg.reach({cfg.entry}, avoid_edges=av) & cfg.attempt(nc)):
-                missed.append("unbound" if bound is None else bound)
-        ctx.check(not missed, "RF-TABLE", "http:fast-path-guard-implied-by-idempotence-test", pr, guards[0],
-                  ok="the guard skips _notify_transport only when the server is already bound to HTTP (where the callee returns early anyway)",
-                  bad=f"the guard `{txt(guards[0].test)}` skips the notification when the server is bound to {missed}: "  # type: ignore[attr-defined]
-                  "a server previously bound to another kind never runs the hook for its HTTP binding, yet HTTP methods are dispatched")
+            for flags in itertools.product((True, False), repeat=len(own_flags)):
+                e: dict[str, object] = {k: bound for k in kind_txt}
+                e.update(zip(own_flags, flags))
+                for m in members:
+                    for pfx in ("TransportKind.", "_common.TransportKind.", "rpc.TransportKind."):
+                        e[pfx + m] = m
+                undec = [g for g in all_ifs if eval_test(g.test, e) is None]
+                if undec:
+                    raise AnalysisError(f"C42: cannot evaluate the middleware guard `{txt(undec[0].test)}`")
+                av = edges_under(cfg, pr.node, e, only=all_ifs)
+                if cfg.exit in cfg.reach({cfg.entry}, nc_done, avoid_edges=av):
+                    label = ("unbound" if bound is None else bound) + ("" if not own_flags else " with " + ", ".join(f"{k}={v}" for k, v in zip(own_flags, flags)))
+                    missed.append(label)
+        ctx.check(not missed, "RF-TABLE", "http:fast-path-guard-implied-by-idempotence-test", pr, all_ifs[0],
+                  ok="process_request skips _notify_transport only when the server is already bound to HTTP (where the callee returns early anyway)" + (f"; evaluated for both values of {own_flags}" if own_flags else ""),
+                  bad=f"process_request can finish without the notification when the server is {sorted(missed, key=lambda x: x.startswith('unbound'))[:4]}: "
+                  "a server bound (or re-bound through serve()) to another kind never runs the hook for its HTTP binding, yet HTTP methods are dispatched")
     sw = swallowing_context(pr, nc, model)
     ctx.check(sw is None, "RF-EXC", "http:hook-failure-aborts-request", pr, nc,
               ok="a failing hook propagates out of process_request (Falcon skips the responder)",
